@@ -679,6 +679,49 @@ example (sched : Nat → Bool) : ∃ s', runSched (machine failingExt false) sch
   gc_unobservable_value_wf failingExt false failingExt_laws failingExt_good failingExt_codeLawsV sched 1
     (Demo.sHalt 0) (Demo.sHalt 1) (sHalt_vmOk _ _) (sHalt_sizeBounded _) (sHalt_calleeOkAlong _) rfl
 
+/-! ### T03.5 without `CalleeOkAlong` (see the section of the same name in Proofs/C13.lean)
+
+The callee guard at call sites is a theorem (`Lemmas/ProcInvMain.lean: calleeOkAlong_of_vmOk`): the two clauses
+`PInv` — every closure cell's lambda is procedure code, no value points to entry code — are an invariant of the real
+machine and of the collector. -/
+
+/-- **T03.5, closed**: `VmOk` and `PInv` of the initial state, the laws of the unmodelled parts, the size bound -/
+theorem gc_unobservable_closed (ext : ExtOps) (force : Bool) (o : ExtLaws ext) (eg : ExtGood ext)
+    (ecl : ExtCodeLawsV ext) (ep : ExtProc ext) (sched : Nat → Bool) (n : Nat) (s0 : St CHeap) (h0 : VmOk ext ecl s0)
+    (p0 : PInv s0) (sb : SizeBounded (machine ext force) s0) :
+    ResRel (Lemmas.Sim.R (machine ext force)) (runSched (machine ext force) sched n 0 s0)
+      (pureN (machine ext force) n s0) :=
+  gc_unobservable_wf ext force o eg ecl sched n s0 h0 sb (calleeOkAlong_of_vmOk force o eg ep h0 p0 sb)
+
+/-- … and the value is the same -/
+theorem gc_unobservable_value_closed (ext : ExtOps) (force : Bool) (o : ExtLaws ext) (eg : ExtGood ext)
+    (ecl : ExtCodeLawsV ext) (ep : ExtProc ext) (sched : Nat → Bool) (n : Nat) (s0 t' : St CHeap)
+    (h0 : VmOk ext ecl s0) (p0 : PInv s0) (sb : SizeBounded (machine ext force) s0)
+    (hk : pureN (machine ext force) n s0 = .done t') :
+    ∃ s', runSched (machine ext force) sched n 0 s0 = .done s' ∧
+      ∀ fuel, resultObs fuel s' = resultObs fuel t' :=
+  gc_unobservable_value_wf ext force o eg ecl sched n s0 t' h0 sb (calleeOkAlong_of_vmOk force o eg ep h0 p0 sb) hk
+
+/-- `run_one` and `run_gc` preserve the bundled invariant `VmOk ∧ PInv` **on the real machine**, with no side
+    condition on the callee (heap invariant of T03.3 included) -/
+theorem run_one_preserves_vmOkP (ext : ExtOps) (el : ExtLaws ext) (eg : ExtGood ext) (ecl : ExtCodeLawsV ext)
+    (ep : ExtProc ext) (s s' : St CHeap) (b : Bool) (h : VmOkP ext ecl s) (sm : Small s.heap)
+    (hs : step (concreteOps ext) s = .ok (s', b)) (sm' : Small s'.heap) :
+    VmOkP ext ecl s' ∧ WFHeap true (toHeap s'.heap) ∧ RootsOk (toHeap s'.heap) ((rootsOf s').refs true) :=
+  let h' := vmOkP_step el eg ep h sm hs sm'
+  ⟨h', h'.1.1.hg.wf, h'.1.1.roots⟩
+
+theorem run_gc_preserves_vmOkP (ext : ExtOps) (ecl : ExtCodeLawsV ext) (force : Bool) (s : St CHeap)
+    (h : VmOkP ext ecl s) (sm' : Small (cgc force s).heap) : VmOkP ext ecl (cgc force s) :=
+  vmOkP_gc force h sm'
+
+open Marwood.Lemmas.Good.Demo in
+/-- non-vacuity -/
+example (sched : Nat → Bool) : ∃ s', runSched (machine failingExt false) sched 1 0 (Demo.sHalt 0) = .done s' ∧
+    ∀ fuel, resultObs fuel s' = resultObs fuel (Demo.sHalt 1) :=
+  gc_unobservable_value_closed failingExt false failingExt_laws failingExt_good failingExt_codeLawsV failingExt_proc
+    sched 1 (Demo.sHalt 0) (Demo.sHalt 1) (sHalt_vmOk _ _) (sHalt_pinv 0) (sHalt_sizeBounded _) rfl
+
 end UnobservableInv
 
 end Marwood.Proofs.C03
